@@ -6,6 +6,11 @@
 // member / non-member lookups (LookupByString, LookupByNode), full iteration, Length(),
 // AsLargeBytes + full read, AsLargeBytes + Seek + partial read, AsBytes. Every result must equal
 // the single-threaded answer derived from the build inputs (entry map, content bytes).
+//
+// Before that, gated schedules (gated_test.go): pairs (thorough: also triples) of operations on one
+// shared node are interleaved deterministically at block loads (9 file DAGs + 2 sharded directories |
+// 16 + 4; park indices 0..3 + last | 0..7 + last), each result compared with the single-threaded
+// result on a fresh node, during and after the concurrent phase.
 package c17
 
 import (
@@ -35,6 +40,8 @@ func TestBounded(t *testing.T) {
 	builder.DefaultLinksPerBlock = 2
 	defer func() { builder.DefaultLinksPerBlock = saved }()
 	rng := vp.Rng(17)
+
+	runGated(t, r)
 
 	names := vp.Dedup(append(vp.Names(vp.Pick(1200, 3000), rng), append(vp.Colliding(4, 21, rng), vp.Colliding(5, 9, rng)...)...))
 	want := map[string]string{}
